@@ -1,6 +1,6 @@
 (* C04: census of sequence numbers over the UTXO entries. *)
 From OrdV Require Import Base.Prelude Generated Index.Inscr Proofs.Inscr_tables Proofs.Inscr_proofs Proofs.Inscr_c07.
-From Coq Require Import Permutation ZifyBool ZifyN.
+From Coq Require Import Permutation Sorting.Sorted ZifyBool ZifyN.
 
 Definition seqs_of (u : uentry) : list N := map fst (u_insc u).
 Definition held_u (U : list (outpoint * uentry)) : list N := concat (map (fun kv => seqs_of (snd kv)) U).
@@ -570,6 +570,181 @@ Proof.
     repeat split; congruence.
 Qed.
 
+(* ---- counting: every envelope of a non-coinbase transaction becomes exactly one inscription *)
+
+Definition nnew (l : list flotsam) : N := N.of_nat (length (new_ids l)).
+Definition le_input (a b : envelope) : Prop := v_input a <= v_input b.
+
+(* what the model assumes about the parser's answer (checked by the oracle on the real parser): envelopes
+   come in input order and name existing inputs *)
+Definition envs_ok (t : tx) : Prop :=
+  StronglySorted le_input (t_envs t) /\
+  Forall (fun v => v_input v < N.of_nat (length (t_ins t))) (t_envs t).
+
+Lemma nnew_app : forall a b, nnew (a ++ b) = nnew a + nnew b.
+Proof. intros. unfold nnew. rewrite new_ids_app, app_length. lia. Qed.
+
+Lemma nnew_perm : forall a b, Permutation a b -> nnew a = nnew b.
+Proof. intros a b H. unfold nnew. f_equal. apply Permutation_length. apply new_ids_perm. exact H. Qed.
+
+Lemma span_input_spec : forall idx l mine rest,
+  span_input idx l = (mine, rest) ->
+  StronglySorted le_input l -> Forall (fun v => idx <= v_input v) l ->
+  l = mine ++ rest /\ StronglySorted le_input rest /\ Forall (fun v => idx + 1 <= v_input v) rest.
+Proof.
+  intros idx l. induction l as [|v r IH]; intros mine rest H HS HB; cbn [span_input] in H.
+  - inv H. repeat split; constructor.
+  - apply StronglySorted_inv in HS. destruct HS as [HS1 HS2].
+    apply Forall_cons_iff in HB. destruct HB as [HB1 HB2].
+    destruct (N.eqb_spec (v_input v) idx) as [Heq|Hne].
+    + destruct (span_input idx r) as [a b] eqn:E. inv H. destruct (IH _ _ eq_refl HS1 HB2) as (A & B & C).
+      rewrite A at 1. repeat split; auto.
+    + inv H. split; [reflexivity|]. split; [constructor; auto|].
+      constructor; [lia|]. eapply Forall_impl; [|exact HS2]. intros z Hz. unfold le_input in Hz. lia.
+Qed.
+
+Lemma news_count : forall st txid jubilant tov offset iv l a a',
+  news st txid jubilant tov offset iv l a = Ok a' -> nnew (a_float a') = nnew (a_float a) + N.of_nat (length l).
+Proof.
+  intros st txid jubilant tov offset iv l. induction l as [|v r IH]; intros a a' H; cbn [news] in H.
+  - inv H. cbn. lia.
+  - dbind H. apply IH in H. rewrite H. cbn [a_float]. rewrite nnew_app. unfold nnew at 2. cbn. lia.
+Qed.
+
+Lemma olds_count : forall ents base l acc io fl io',
+  olds ents base l acc io = Ok (fl, io') -> nnew fl = nnew acc.
+Proof.
+  intros ents base l acc io fl io' H. apply olds_spec in H. destruct H as (extra & -> & F).
+  rewrite nnew_app. unfold nnew at 2. rewrite (new_ids_old _ F). cbn. lia.
+Qed.
+
+Lemma inputs_loop_count : forall cfg st txid height jubilant tov ins idx pre cur envs a a',
+  length pre = N.to_nat idx -> length cur = length ins ->
+  forallb (fun p => negb (is_null p)) ins = true ->
+  StronglySorted le_input envs ->
+  Forall (fun v => idx <= v_input v < idx + N.of_nat (length ins)) envs ->
+  inputs_loop cfg st txid height jubilant tov ins idx (pre ++ cur) envs a = Ok a' ->
+  nnew (a_float a') = nnew (a_float a) + N.of_nat (length envs).
+Proof.
+  intros cfg st txid height jubilant tov ins. induction ins as [|prev r IH]; intros idx pre cur envs a a' L1 L2 NN HS HB H; cbn [inputs_loop] in H.
+  - inv H. destruct envs as [|v e]; [cbn; lia|]. apply Forall_cons_iff in HB. destruct HB as [HB _]. cbn in HB. lia.
+  - cbn [forallb] in NN. apply andb_true_iff in NN. destruct NN as [N1 N2].
+    destruct (is_null prev); [discriminate|]. destruct cur as [|u cur']; [discriminate|].
+    assert (Hn : nth_error (pre ++ u :: cur') (N.to_nat idx) = Some u).
+    { rewrite nth_error_app2 by lia. rewrite <- L1, Nat.sub_diag. reflexivity. }
+    rewrite Hn in H. dbind H. destruct a0 as [fl io]. destruct (span_input idx envs) as [mine rest] eqn:ES.
+    dbind H. rename a0 into a1.
+    destruct (span_input_spec _ _ _ _ ES HS) as (A & B & C).
+    { eapply Forall_impl; [|exact HB]. intros z Hz. cbv beta in *. lia. }
+    replace (pre ++ u :: cur') with ((pre ++ [u]) ++ cur') in H by (rewrite <- app_assoc; reflexivity).
+    apply IH in H; [| rewrite app_length; cbn; lia | cbn in L2; lia | exact N2 | exact B |].
+    + apply olds_count in E. apply news_count in E0. cbn [a_float] in E0. rewrite H, E0, E, A, app_length. lia.
+    + rewrite Forall_forall in *. intros z Hz. specialize (C z Hz).
+      assert (Hz' : In z envs) by (rewrite A; apply in_or_app; auto). specialize (HB z Hz'). cbn [length] in HB. lia.
+Qed.
+
+Lemma floating_of_count_plain : forall cfg st h t ents F tiv,
+  tx_plain t -> length ents = length (t_ins t) -> envs_ok t ->
+  floating_of cfg st h t ents = Ok (F, tiv) -> nnew F = N.of_nat (length (t_envs t)).
+Proof.
+  intros cfg st h t ents F tiv HP HL [HS HB] H. unfold floating_of in H. dbind H. dbind H. inv H.
+  unfold nnew. rewrite new_ids_fix. fold (nnew (a_float a)).
+  apply (inputs_loop_count _ _ _ _ _ _ _ 0 [] ents) in E; auto.
+  eapply Forall_impl; [|exact HB]. intros z Hz. cbn beta in Hz. lia.
+Qed.
+
+Lemma step_next : forall h rg f sp o b b',
+  update_location h rg f sp o b = Ok b' -> b_next b' = b_next b + nnew [f].
+Proof.
+  intros h rg f sp o b b' H. destruct (update_utxo_shape _ _ _ _ _ _ _ H) as (op & s & off & _ & [(seq & A1 & _ & A3 & _)|(A1 & _ & A3 & _)]).
+  - rewrite A3. unfold nnew, new_ids. cbn [filter]. unfold is_new. rewrite A1. cbn. lia.
+  - rewrite A3. unfold nnew, new_ids. cbn [filter]. rewrite A1. cbn. lia.
+Qed.
+
+Lemma apply_locs_next : forall h rg locs b b',
+  apply_locs h rg locs b = Ok b' -> b_next b' = b_next b + nnew (map loc_flot locs).
+Proof.
+  intros h rg locs. induction locs as [|[[[op off] f] o] r IH]; intros b b' H; cbn [apply_locs] in H.
+  - inv H. cbn. lia.
+  - dbind H. apply IH in H. apply step_next in E. cbn [map loc_flot fst snd].
+    change (f :: map loc_flot r) with ([f] ++ map loc_flot r). rewrite nnew_app. lia.
+Qed.
+
+Lemma apply_lost_next : forall h rg ov l b b',
+  apply_lost h rg ov l b = Ok b' -> b_next b' = b_next b + nnew l.
+Proof.
+  intros h rg ov l. induction l as [|f r IH]; intros b b' H; cbn [apply_lost] in H.
+  - inv H. cbn. lia.
+  - dbind H. dbind H. apply IH in H. apply step_next in E0.
+    change (f :: r) with ([f] ++ r). rewrite nnew_app. lia.
+Qed.
+
+Lemma index_inscriptions_count : forall cfg h t ents rg b b',
+  ((tx_plain t /\ length ents = length (t_ins t) /\ envs_ok t) \/ tx_cb t) ->
+  index_inscriptions cfg h t ents rg b = Ok b' ->
+  b_next b' + nnew (b_flot b') =
+  b_next b + nnew (b_flot b) + (if tx_is_coinbase t then 0 else N.of_nat (length (t_envs t))).
+Proof.
+  intros cfg h t ents rg b b' Hcase H. unfold index_inscriptions in H. dbind H. destruct a as [F tiv].
+  destruct Hcase as [(HP & HL & HE)|HCB].
+  - rewrite (plain_not_coinbase t HP) in *. apply floating_of_count_plain in E; auto.
+    destruct (assign (t_id t) 0 0 (t_outs t) (sort_by f_offset F)) as [[locs rest] ov] eqn:EA. apply assign_split in EA.
+    dbind H. dbind H. dbind H. inv H. cbn [b_next b_flot].
+    rewrite (apply_locs_next _ _ _ _ _ E0), (apply_locs_flot _ _ _ _ _ E0), nnew_app.
+    assert (Q : nnew a0 = nnew rest) by (unfold nnew; destruct (rebase_ids _ _ _ _ E1) as (R1 & _); rewrite R1; reflexivity).
+    assert (Q2 : nnew F = nnew (map loc_flot locs) + nnew rest).
+    { rewrite <- nnew_app, <- EA. apply nnew_perm. apply Permutation_sym, sort_by_perm. }
+    lia.
+  - rewrite (cb_is_coinbase t HCB) in *. apply floating_of_olds_cb in E; auto. subst F. cbn [app] in H.
+    destruct (assign (t_id t) 0 0 (t_outs t) (sort_by f_offset (b_flot b))) as [[locs rest] ov] eqn:EA. apply assign_split in EA.
+    dbind H. dbind H. dbind H. inv H. cbn [b_next b_flot].
+    rewrite (apply_lost_next _ _ _ _ _ _ E0), (apply_locs_next _ _ _ _ _ E), (apply_lost_flot _ _ _ _ _ _ E0), (apply_locs_flot _ _ _ _ _ E).
+    cbn [set_flot b_next b_flot].
+    assert (Q2 : nnew (b_flot b) = nnew (map loc_flot locs) + nnew rest).
+    { rewrite <- nnew_app, <- EA. apply nnew_perm. apply Permutation_sym, sort_by_perm. }
+    unfold nnew at 3. cbn. lia.
+Qed.
+
+Lemma take_inputs_length : forall ins U ents U', take_inputs ins U = Ok (ents, U') -> length ents = length ins.
+Proof.
+  intros ins. induction ins as [|p r IH]; intros U ents U' E; cbn [take_inputs] in E.
+  - inv E. reflexivity.
+  - destruct (tgP p U); [|discriminate]. dbind E. destruct a as [us U2]. inv E. cbn. f_equal. eapply IH; eauto.
+Qed.
+
+Lemma index_tx_count : forall cfg h (first : bool) t b b',
+  (if first then tx_cb t else tx_plain t /\ envs_ok t) ->
+  index_tx cfg h true first t b = Ok b' ->
+  b_next b' + nnew (b_flot b') = b_next b + nnew (b_flot b) + (if first then 0 else N.of_nat (length (t_envs t))).
+Proof.
+  intros cfg h first t b b' Hshape H. unfold index_tx in H.
+  dbind H. destruct a as [ents utxo1]. dbind H. destruct a as [[per_out in_ranges] b1].
+  assert (Hb1 : b_next b1 = b_next b /\ b_flot b1 = b_flot b).
+  { destruct (c_sats cfg).
+    - dbind E0. destruct a as [po lft]. destruct first; inv E0; cbn; auto.
+    - inv E0. auto. }
+  destruct Hb1 as (Q2 & Q3).
+  apply index_inscriptions_count in H.
+  - cbn [set_st b_next b_flot] in H. rewrite Q2, Q3 in H. rewrite H. destruct first.
+    + rewrite (cb_is_coinbase t Hshape). reflexivity.
+    + destruct Hshape as [HP HE]. rewrite (plain_not_coinbase t HP). reflexivity.
+  - destruct first; [right; exact Hshape|]. destruct Hshape as [HP HE]. left.
+    split; [exact HP|]. split; [|exact HE]. eapply take_inputs_length; eauto.
+Qed.
+
+Definition count_envs (l : list tx) : N := fold_right (fun t a => N.of_nat (length (t_envs t)) + a) 0 l.
+
+Lemma index_txs_count : forall cfg h l b b',
+  Forall (fun t => tx_plain t /\ envs_ok t) l ->
+  index_txs cfg h true l b = Ok b' ->
+  b_next b' + nnew (b_flot b') = b_next b + nnew (b_flot b) + count_envs l.
+Proof.
+  intros cfg h l. induction l as [|t r IH]; intros b b' HF H; cbn [index_txs] in H.
+  - inv H. cbn. lia.
+  - dbind H. apply Forall_cons_iff in HF. destruct HF as [HF1 HF2].
+    apply IH in H; auto. apply (index_tx_count cfg h false) in E; auto. cbn [count_envs fold_right]. fold (count_envs r). lia.
+Qed.
+
 Definition block_ok (blk : block) : Prop :=
   match blk with [] => True | t0 :: r => tx_cb t0 /\ Forall tx_plain r end.
 
@@ -653,6 +828,46 @@ Proof.
       * rewrite Fl2. reflexivity.
       * rewrite E2, Fl2, N2. cbn. constructor.
 Qed.
+
+Definition count_block (cfg : config) (h : N) (blk : block) : N :=
+  if c_first cfg <=? h then count_envs (tl blk) else 0.
+
+Lemma index_block_count : forall cfg h blk seen st st',
+  St4 seen st -> NoDup (map t_id blk) -> (forall x, In x (map t_id blk) -> ~ In x seen /\ x <> 0) ->
+  block_ok blk -> Forall envs_ok (tl blk) ->
+  ((c_first cfg <=? h) = false -> next_seq_of (s_entries st) = 0) ->
+  index_block cfg h blk st = Ok st' ->
+  next_seq_of (s_entries st') = next_seq_of (s_entries st) + count_block cfg h blk.
+Proof.
+  intros cfg h blk seen st st' HS ND FR BO HE HZ H. unfold count_block.
+  destruct (index_block_st4 cfg h blk seen st st' HS ND FR BO HZ H) as (s0 & _ & _ & HEq).
+  destruct (c_first cfg <=? h) eqn:INS.
+  2:{ rewrite (HEq eq_refl). lia. }
+  clear HEq s0.
+  destruct HS as [SD SK SS SP]. unfold index_block in H. rewrite INS in H.
+  dbind H. rename a into cb. dbind H. rename a into b1. dbind H. rename a into b2. inv H. cbn [s_entries].
+  match type of E0 with index_txs _ _ _ _ ?B = _ => set (b0 := B) in * end.
+  assert (HC0 : Cen seen b0) by (subst b0; split; cbn; auto).
+  assert (P0 : Permutation (held_u (s_utxo (b_st b0)) ++ old_seqs (b_flot b0)) (nlist (b_next b0))).
+  { subst b0. cbn. rewrite app_nil_r. exact SP. }
+  destruct blk as [|t0 r].
+  - cbn [tl] in E0. cbn in E0. inv E0. inv E1. cbn. lia.
+  - cbn [tl] in E0, HE. cbn [map] in ND, FR. apply NoDup_cons_iff in ND. destruct ND as [ND1 ND2]. destruct BO as [BO1 BO2].
+    assert (FR1 : forall x, In x (map t_id r) -> ~ In x seen /\ x <> 0) by (intros x Hx; apply FR; right; auto).
+    destruct (index_txs_census cfg h r seen b0 b1 HC0 ND2 FR1 BO2 P0 E0) as (s1 & C1 & HS1 & P1).
+    assert (F12 : ~ In (t_id t0) seen /\ t_id t0 <> 0) by (apply FR; left; reflexivity). destruct F12 as [F1 F2].
+    destruct (index_tx_census cfg h true t0 s1 b1 b2 C1) as (C2 & P2 & Fl2); auto.
+    { intro Hx. apply HS1 in Hx. destruct Hx as [Hx|Hx]; contradiction. }
+    assert (HFE : Forall (fun t => tx_plain t /\ envs_ok t) r).
+    { rewrite Forall_forall in *. intros t Ht. split; auto. }
+    pose proof (index_txs_count cfg h r b0 b1 HFE E0) as K1.
+    pose proof (index_tx_count cfg h true t0 b1 b2 BO1 E1) as K2.
+    rewrite (Fl2 eq_refl) in K2. subst b0. cbn [b_next b_flot] in K1. unfold nnew at 1 in K2. unfold nnew at 2 in K1. cbn in K1, K2.
+    rewrite (next_seq_of_dom _ (b_next b2)); [|apply C2]. cbn [tl]. lia.
+Qed.
+
+Fixpoint count_chain (cfg : config) (h : N) (c : list block) : N :=
+  match c with [] => 0 | blk :: r => count_block cfg h blk + count_chain cfg (h + 1) r end.
 
 Lemma index_chain_st4 : forall cfg c h seen st st',
   St4 seen st -> NoDup (chain_txids c) -> (forall x, In x (chain_txids c) -> ~ In x seen /\ x <> 0) ->
